@@ -137,7 +137,7 @@ class Proc:
         else:
             argv = [exe] + args
         if self.job.build == "asan":
-            env["ASAN_OPTIONS"] = "halt_on_error=1:abort_on_error=1:detect_leaks=1:symbolize=1"
+            env["ASAN_OPTIONS"] = "halt_on_error=1:abort_on_error=1:detect_leaks=%d:symbolize=1" % (0 if self.job.env.get("PQVERIF_NO_LSAN") else 1)
             env["ASAN_SYMBOLIZER_PATH"] = shutil.which("llvm-symbolizer-14") or shutil.which("llvm-symbolizer") or ""
         return argv, env, VERIF
 
@@ -270,8 +270,14 @@ def run_jobs(jobs, seed, log):
             have_stats = any(l.get("t") == "stats" for l in out_lines)
             for l in out_lines:
                 l["job"] = pr.job.name
+                l["job_binary"] = pr.job.binary
                 l["build"] = pr.job.build + ("-tb" if pr.job.tb else "") + ("+" + pr.job.wrap if pr.job.wrap else "")
                 lines.append(l)
+            if pr.job.wrap == "cachegrind":
+                import re
+                m = re.search(r"I\s+refs:\s+([0-9,]+)", tail(pr.err_path, 4000))
+                if m:
+                    lines.append({"t": "irefs", "job": pr.job.name, "args": dict(pr.job.args), "irefs": int(m.group(1).replace(",", ""))})
             dt = time.time() - pr.t0
             log.write("-- %s shard %d%s rc=%s %.1fs stats=%s\n" % (pr.job.name, pr.shard, pr.tag, rc, dt, have_stats))
             if rc == 0 and have_stats:
@@ -297,7 +303,19 @@ def run_jobs(jobs, seed, log):
             synthetic.append((pr, v))
             # carry on after the crashing episode so that one defect does not mask the others
             if pr.job.restartable and ep is not None and "index" in ep and pr.restarts < 12:
-                nxt = Proc(pr.job, pr.shard, pr.seed, extra=dict(pr.extra, start=int(ep["index"]) + 1), tag="-r%d" % (pr.restarts + 1))
+                sub = None
+                for l in detail:
+                    if l.startswith("CASE "):
+                        try:
+                            sub = json.loads(l[5:]).get("sub")
+                        except ValueError:
+                            pass
+                if sub is not None:
+                    ex = dict(pr.extra, start=int(ep["index"]), substart=int(sub) + 1)
+                else:
+                    ex = dict(pr.extra, start=int(ep["index"]) + 1)
+                    ex.pop("substart", None)
+                nxt = Proc(pr.job, pr.shard, pr.seed, extra=ex, tag="-r%d" % (pr.restarts + 1))
                 nxt.restarts = pr.restarts + 1
                 pending.append(nxt)
     # turn aborts into violations with an explicit witness
@@ -341,10 +359,17 @@ def attribute_abort(pr, v, log):
     else:
         props += OP_PROPS.get(last_op, [])
     kind = (ep or {}).get("kind", "?")
+    if kind == "?" and case is not None:
+        ck = case.get("kind") or (case.get("case") or {}).get("kind") or (case.get("history") or {}).get("kind")
+        if ck:
+            kind = str(ck).lower()
     v["props"] = sorted(set(props))
     v["sig"] = "abort/%s/%s/%s/%s" % (kind, last_op, v["abort"], first_frame(v["stderr_tail"]))
     v["detail"] = "%s during %s (%s build)" % (v["abort"], last_op, v["build"])
-    if case is not None:
+    v["binary"] = pr.job.binary
+    if case is not None and case.get("history") is not None:
+        v["replay"] = {"mode": "hist", "history": case["history"], "episode": ep}
+    elif case is not None:
         v["replay"] = {"mode": case.get("mode", pr.job.mode), "case": case, "episode": ep}
     else:
         hist = None
@@ -389,6 +414,11 @@ def evaluate(pid, tier, seed, plan, log):
     for fl in sorted(set(j.build for j in jobs)):
         build(fl, log)
     lines, problems = run_jobs(jobs, seed, log)
+    post_info = None
+    if "post" in plan:
+        extra_viols, post_info, post_problems = plan["post"](lines, tier)
+        lines.extend(extra_viols)
+        problems.extend(post_problems)
     viols = [l for l in lines if l.get("t") == "viol"]
     stats = [l for l in lines if l.get("t") == "stats"]
     mine, others = {}, {}
@@ -405,7 +435,7 @@ def evaluate(pid, tier, seed, plan, log):
             continue
         path = os.path.join(REPLAYS, "%s-%s.json" % (pid, sig_hash(sig)))
         with open(path, "w") as f:
-            json.dump({"property": pid, "sig": sig, "props": v.get("props"), "detail": v.get("detail"), "build": v.get("build"), "replay": v.get("replay"),
+            json.dump({"property": pid, "sig": sig, "props": v.get("props"), "detail": v.get("detail"), "build": v.get("build"), "binary": v.get("binary") or v.get("job_binary"), "replay": v.get("replay"),
                        "abort": v.get("abort"), "stderr_tail": v.get("stderr_tail")}, f, indent=1)
         new.append((sig, v, path))
     # coverage floors
@@ -438,6 +468,7 @@ def evaluate(pid, tier, seed, plan, log):
             "worker_processes": len(stats),
             "per_job_distinct_max_over_shards": per_job,
             "aggregate": agg,
+            "post_analysis": post_info,
             "violations_for_this_property": sorted(mine.keys()),
             "known_findings_seen": [k["signature"] for k in printed_known],
             "violations_of_other_properties_observed": {sig: v.get("props") for sig, v in sorted(others.items())},
@@ -481,7 +512,7 @@ def replay(pid, path, log):
         bld = "ubcheck"
     build(bld, log)
     mode = (w.get("replay") or {}).get("mode", "hist")
-    j = Job("replay", bld, "replay", {"file": os.path.abspath(path)}, shards=1, restartable=False, tb=tb, binary=plans.BINARY_FOR_MODE.get(mode, "worker"))
+    j = Job("replay", bld, "replay", {"file": os.path.abspath(path)}, shards=1, restartable=False, tb=tb, binary=w.get("binary") or plans.BINARY_FOR_MODE.get(mode, "worker"))
     lines, problems = run_jobs([j], 0, log)
     viols = [l for l in lines if l.get("t") == "viol"]
     for v in viols:
@@ -497,10 +528,36 @@ def replay(pid, path, log):
     return 0
 
 
+def setup():
+    """Offline build of every flavour, so that checks only pay incremental rebuilds."""
+    os.makedirs(RUNDIR, exist_ok=True)
+    rc = 0
+    with open(os.path.join(RUNDIR, "setup.log"), "w") as log:
+        for fl in ("ubcheck", "release", "boxrel", "asan"):
+            try:
+                t0 = time.time()
+                build(fl, log)
+                print("setup: built %s in %.0fs" % (fl, time.time() - t0))
+            except Inconclusive as e:
+                print("setup: %s" % e)
+                rc = 1
+        for tb in (False, True):
+            t0 = time.time()
+            argv, env = miri_cmd("worker", ["replay", "dir=%s" % os.path.join(VERIF, "corpus"), "prefix=no-such-prefix"], tb)
+            p = subprocess.run(argv, cwd=HARNESS, env=env, stdout=subprocess.PIPE, stderr=subprocess.STDOUT, text=True)
+            log.write(p.stdout[-3000:])
+            print("setup: miri%s rc=%d in %.0fs" % ("-tb" if tb else "", p.returncode, time.time() - t0))
+            if p.returncode != 0:
+                rc = 1
+    return rc
+
+
 def main(argv):
     global CURRENT_ID
     import plans
 
+    if argv and argv[0] == "--setup":
+        return setup()
     if len(argv) < 2:
         print(__doc__ or "usage: check <ID> quick|thorough | --replay <file>")
         return 2
